@@ -229,6 +229,10 @@ def compare(case, ans, place, fail):
         shape = None
         if case.op in BUFPOS_OPS and pos is not None and fam == "oob":
             shape = pos
+            # reads around the INPUT block: "<" as last byte is the one input feature that explains a read at its
+            # end; any other document keeps its own label so that a different over-read is not taken for that one
+            if pos.startswith("input:") and case.shape_for("oob") != "lt-at-end":
+                shape = "%s/%s" % (pos, case.shape_for("oob"))
         elif reinv is not None and case.exp[0] == "sized" and "cap" in str(case.shape):
             # the fault happened in the second call, made with exactly the capacity the function reported
             pre = case.shape.rsplit("/", 1)[0] + "/" if "/" in case.shape else ""
@@ -421,6 +425,10 @@ def run(ctx):
             replay["symbolized"] = out[:3000]
         ctx.fail(key, "%d case(s), placements %s\nfirst: %s\n%s" % (cnt, "".join(sorted(places)), replay["case"], det[:2500]), replay)
 
+    # vacuity of the binding: every operation must have been seen succeeding at least once
+    dead = [op for op, v in per_op.items() if v[0] == 0]
+    if dead:
+        raise common.Infra("no successful call observed for %s: the driver binding would be vacuous" % ", ".join(sorted(dead)))
     nontriv = {c.ident for c in cases if c.nontrivial}
     ctx.add(distinct_nontrivial=len(nontriv))
     ctx.cov["generators"] = per_gen
